@@ -492,6 +492,40 @@ func gunzip(b []byte) ([]byte, error) {
 var e2eSeq = 0
 
 // run one call; returns the model line, the implementation's observables and oracle failures
+func e2eAfterEncodeFailure(rig *e2eRig, cl *client.Client, ser protocol.SerializeType) string {
+	e2eSeq++
+	ctx := context.WithValue(context.Background(), share.ReqMetaDataKey, map[string]string{"cid": "left-behind", "secret": "s3cr3t"})
+	c1, cancel1 := context.WithTimeout(ctx, 5*time.Second)
+	var dummy JReply
+	// a channel is nothing any of the codecs can encode
+	err := cl.Call(c1, "E2E", e2eMethod[ser], make(chan int), &dummy)
+	cancel1()
+	if err == nil {
+		return "" // this codec took the value: nothing failed, nothing to look at
+	}
+	rig.st.mu.Lock()
+	delete(rig.st.obs, "")
+	rig.st.mu.Unlock()
+	args, reply, _ := e2eArgs(ser, e2eSeq, []byte("after-a-failure"))
+	c2, cancel2 := context.WithTimeout(context.Background(), 5*time.Second)
+	defer cancel2()
+	if err := cl.Call(c2, "E2E", e2eMethod[ser], args, reply); err != nil {
+		return "the call after the failed one: " + err.Error()
+	}
+	got, ok := rig.st.get("", 2*time.Second)
+	if !ok {
+		// the handler noted the call under another caller's id
+		if lb, ok2 := rig.st.get("left-behind", 10*time.Millisecond); ok2 {
+			return fmt.Sprintf("a call sent without metadata reached the handler with the metadata of an earlier call that was never sent: %v", lb.meta)
+		}
+		return "the handler did not note the call"
+	}
+	if len(got.meta) != 0 {
+		return fmt.Sprintf("a call sent without metadata reached the handler with metadata %v (an earlier call that failed to encode carried it)", got.meta)
+	}
+	return ""
+}
+
 func e2eDo(rig *e2eRig, cl *client.Client, k e2eCall, r *common.Rand, tapped bool) (string, string, []string) {
 	e2eSeq++
 	cid := fmt.Sprintf("c%d", e2eSeq)
@@ -715,6 +749,19 @@ func runE2E(r *common.Rand, tier string, o *common.Out, replay string) {
 					if k.ow {
 						o.Count("one-way")
 					}
+				}
+				// a call whose arguments the codec cannot encode (it carries metadata), then a call that sends none: the
+				// handler sees no metadata
+				{
+					id := fmt.Sprintf("s%d", n)
+					n++
+					line := fmt.Sprintf("e2eenc|%s|%d|%d", network, ser, ct)
+					o.Begin(id, line)
+					if bad := e2eAfterEncodeFailure(rig, cl, ser); bad != "" {
+						o.Fail(id, "metadata-differs", bad, line)
+					}
+					o.ImplOnly(id, line, true)
+					o.Count("call-after-an-encode-failure")
 				}
 				// concurrent callers on the same connection
 				callers, per := 6, 4
